@@ -20,9 +20,10 @@ records the first error (`err`): a strict run is that run cut at its first error
 state is never observed after an error), a lenient run is the whole run — including what the
 continued code does to the message after an error (values of a message literal that are set after
 a bad field, intermediate messages created by a name-path walk that fails further down).
-A Go panic (dynamicpb Get/Has/Set/NewField with an extension of another message; `ffld.Message()`
-of a scalar field reached through the lower-cased-name fallback) is recorded as an error plus a
-sticky `pan`, because in lenient mode it is reached even after earlier swallowed errors.
+No run of the model panics: the two panics of the original code (dynamicpb called with an extension
+of another message inside a message literal; `ffld.Message()` of a scalar field reached through the
+lower-cased-name fallback) were fixed in /repo (47c63915, 28d6433e) and are ordinary errors now
+(`Err.extendee`, `Err.msgfield`); a panic of the implementation is a disagreement.
 
 Values.  An options message is a `PM` (field number ↦ value, insertion order); a field without
 presence that is set to its zero value is not stored (dynamicpb: `Has` is false, `Range` skips it).
@@ -192,7 +193,7 @@ inductive Err where
   | uninterp | pseudodup | jsontype | jsonext | jsonbrackets | defrepeated | defmsg | defmsglit | defenumtype
   | unkext | extendee | nofield | target | notmsg | reppath | oneof | dup | notrep | range
   | enumname | enumnum | enumneedname | type | anymix | anynotany | anyurl | anylit | anyser
-  | msgfield | colon | validate | panicExt (full : String) | panicNil
+  | msgfield | colon | validate
 deriving DecidableEq, Repr, Inhabited
 
 def Err.toString : Err → String
@@ -204,8 +205,6 @@ def Err.toString : Err → String
   | .enumnum => "enumnum" | .enumneedname => "enumneedname" | .type => "type" | .anymix => "anymix"
   | .anynotany => "anynotany" | .anyurl => "anyurl" | .anylit => "anylit" | .anyser => "anyser"
   | .msgfield => "msgfield" | .colon => "colon" | .validate => "validate"
-  | .panicExt f => "panic " ++ f
-  | .panicNil => "panic nil"
 
 /-- keep the first error -/
 def firstErr (a b : Option Err) : Option Err := match a with | some e => some e | none => b
@@ -329,16 +328,14 @@ deriving Inhabited
 structure VR where
   val : Option PV
   err : Option Err
-  pan : Option Err
 deriving Inhabited
 
 /-- result of setOptionField / interpretField: the (possibly partially) mutated message,
-    whether source info was returned (`ok`), first error, panic flag -/
+    whether source info was returned (`ok`), first error -/
 structure SR where
   pm : PM
   ok : Bool
   err : Option Err
-  pan : Option Err
 deriving Inhabited
 
 /-- `msg.WhichOneof(ood)`: the set member of oneof `o` of message `mi`, if any -/
@@ -425,59 +422,49 @@ def reqL (s : Schema) (mi : Nat) : List PV → Bool
   | v :: r => reqV s mi v && reqL s mi r
 end
 
-inductive Lookup where
-  | found (f : FieldS)
-  | notFound
-  /-- `ffld.Message().Name()` on a field that has no message type: nil dereference -/
-  | nilDeref
-
-/-- field lookup of messageLiteralValue with the lower-cased group name fallback -/
-def lookupLiteralField (s : Schema) (mi : Nat) (name : String) : Lookup :=
+/-- field lookup of messageLiteralValue with the lower-cased group name fallback (only a field
+    that looks like a proto2 group may be named by its type name) -/
+def lookupLiteralField (s : Schema) (mi : Nat) (name : String) : Option FieldS :=
   let m := s.msg mi
   match findByName m.fields name with
-  | some f => .found f
+  | some f => some f
   | none =>
     match findByName m.fields name.toLower with
-    | none => .notFound
+    | none => none
     | some f =>
       match f.kind with
       | .group g =>
         -- text format uses the type name; message and field declared in the same scope
-        if name == (s.msg g).short && (s.msg g).parent == m.full then .found f else .notFound
-      | .msg g =>
-        -- same test, then `ffld.Kind() == GroupKind` fails
-        .notFound
-      | _ => .nilDeref
+        if name == (s.msg g).short && (s.msg g).parent == m.full then some f else none
+      | _ => none
 
-/-! ## fieldValue / messageLiteralValue / setOptionField -/
-
-/-- the extension `f` does not belong to message `mi`: dynamicpb panics on Get/Has/Set/NewField -/
+/-- the extension `f` does not belong to message `mi` -/
 def foreignExt (s : Schema) (mi : Nat) (f : FieldS) : Bool :=
   f.extendee != "" && f.extendee != (s.msg mi).full
 
-def panicOf (f : FieldS) : Option Err := some (.panicExt f.full)
+/-- `[fqn]` inside a message literal of type `mi`: unknown (or no resolver) → "field … not found";
+    an extension of another message → "extension … should extend … but instead extends …" (47c63915) -/
+def resolveLiteralExt (cx : Cx) (mi : Nat) (fqn : String) : Except Err FieldS :=
+  match (if cx.linked then cx.sch.findExt fqn else none) with
+  | none => .error .msgfield
+  | some f => if foreignExt cx.sch mi f then .error .extendee else .ok f
 
 /-- the part of setOptionField after the value has been computed -/
 def setOne (cx : Cx) (mi : Nat) (pm : PM) (f : FieldS) (r : VR) : SR :=
   match r.val with
-  | none => ⟨pm, false, r.err, r.pan⟩
+  | none => ⟨pm, false, r.err⟩
   | some pv =>
-    if oneofConflict cx.sch mi pm f then ⟨pm, false, firstErr r.err (some .oneof), r.pan⟩
-    else if foreignExt cx.sch mi f then ⟨pm, false, firstErr r.err (panicOf f), firstErr r.pan (panicOf f)⟩  -- msg.Has(fld)
-    else if f.isMap then ⟨setMapEntry cx.sch pm f pv, true, r.err, r.pan⟩
-    else if f.card == .rep then ⟨appendList pm f pv, true, r.err, r.pan⟩
-    else if pmHas pm f then ⟨pm, false, firstErr r.err (some .dup), r.pan⟩
-    else ⟨pmStore pm f pv, true, r.err, r.pan⟩
+    if oneofConflict cx.sch mi pm f then ⟨pm, false, firstErr r.err (some .oneof)⟩
+    else if f.isMap then ⟨setMapEntry cx.sch pm f pv, true, r.err⟩
+    else if f.card == .rep then ⟨appendList pm f pv, true, r.err⟩
+    else if pmHas pm f then ⟨pm, false, firstErr r.err (some .dup)⟩
+    else ⟨pmStore pm f pv, true, r.err⟩
 
 /-- setOptionField once the recursive calls have been made: `fv` is `fieldValue` of the value
     (used when the value is not an array), `items` the array loop (used when it is) -/
-def setOptionFieldCore (cx : Cx) (mi : Nat) (pm : PM) (f : FieldS) (isArr isMsgLit : Bool) (fv : VR) (items : SR) : SR :=
+def setOptionFieldCore (cx : Cx) (mi : Nat) (pm : PM) (f : FieldS) (isArr : Bool) (fv : VR) (items : SR) : SR :=
   if isArr then
-    if f.card != .rep then ⟨pm, false, some .notrep, none⟩
-    else if foreignExt cx.sch mi f then ⟨pm, false, panicOf f, panicOf f⟩          -- msg.Get(fld)
-    else items
-  else if f.card == .rep && foreignExt cx.sch mi f then ⟨pm, false, panicOf f, panicOf f⟩   -- msg.Get(fld)
-  else if isMsgLit && f.kind.isMessage && foreignExt cx.sch mi f then ⟨pm, false, panicOf f, panicOf f⟩  -- msg.NewField(fld)
+    if f.card != .rep then ⟨pm, false, some .notrep⟩ else items
   else setOne cx mi pm f fv
 
 def AV.isArr : AV → Bool | .arr _ => true | _ => false
@@ -489,102 +476,100 @@ def fieldValue (cx : Cx) (f : FieldS) (v : AV) (inside : Bool) : VR :=
   match f.kind with
   | .enum e =>
     match enumFieldValue (cx.sch.enum e) v inside with
-    | .ok n => ⟨some (.num n), none, none⟩
-    | .error er => ⟨none, some er, none⟩
+    | .ok n => ⟨some (.num n), none⟩
+    | .error er => ⟨none, some er⟩
   | .msg m =>
     match v with
-    | .msg fs => msgLit cx m fs fs.length [] false none none
-    | _ => ⟨none, some .type, none⟩
+    | .msg fs => msgLit cx m fs fs.length [] false none
+    | _ => ⟨none, some .type⟩
   | .group m =>
     match v with
-    | .msg fs => msgLit cx m fs fs.length [] false none none
-    | _ => ⟨none, some .type, none⟩
+    | .msg fs => msgLit cx m fs fs.length [] false none
+    | _ => ⟨none, some .type⟩
   | k =>
     match scalarFieldValue k v inside with
-    | .ok pv => ⟨some pv, none, none⟩
-    | .error er => ⟨none, some er, none⟩
+    | .ok pv => ⟨some pv, none⟩
+    | .error er => ⟨none, some er⟩
 
 /-- the loop of messageLiteralValue over the remaining field nodes `fs`; `n` is the total number of
     field nodes of the literal, `pm` the message built so far -/
-def msgLit (cx : Cx) (mi : Nat) (fs : AFs) (n : Nat) (pm : PM) (hadErr : Bool) (err : Option Err) (pan : Option Err) : VR :=
+def msgLit (cx : Cx) (mi : Nat) (fs : AFs) (n : Nat) (pm : PM) (hadErr : Bool) (err : Option Err) : VR :=
   match fs with
-  | .nil => if hadErr then ⟨none, err, pan⟩ else ⟨some (.msg pm), err, pan⟩
+  | .nil => if hadErr then ⟨none, err⟩ else ⟨some (.msg pm), err⟩
   | .cons name sep val rest =>
     match name with
     | .any host nm =>
       let hadErr1 := if n > 1 then true else hadErr
       let err := if n > 1 then firstErr err (some .anymix) else err
       if (cx.sch.msg mi).full != "google.protobuf.Any" then
-        msgLit cx mi rest n pm true (firstErr err (some .anynotany)) pan
+        msgLit cx mi rest n pm true (firstErr err (some .anynotany))
       else if host != "type.googleapis.com" && host != "type.googleprod.com" then
-        msgLit cx mi rest n pm true (firstErr err (some .anyurl)) pan
+        msgLit cx mi rest n pm true (firstErr err (some .anyurl))
       else
         match val with
         | .msg anyFields =>
           match (if cx.linked then cx.sch.findMsg nm else none) with
-          | none => msgLit cx mi rest n pm true (firstErr err (some .anyurl)) pan
+          | none => msgLit cx mi rest n pm true (firstErr err (some .anyurl))
           | some ami =>
-            let r := msgLit cx ami anyFields anyFields.length [] false none none
+            let r := msgLit cx ami anyFields anyFields.length [] false none
             let err := firstErr err r.err
-            let pan := firstErr pan r.pan
             match r.val with
-            | none => msgLit cx mi rest n pm true err pan
+            | none => msgLit cx mi rest n pm true err
             | some inner =>
               if !reqV cx.sch ami inner then
-                msgLit cx mi rest n pm true (firstErr err (some .anyser)) pan
+                msgLit cx mi rest n pm true (firstErr err (some .anyser))
               else if !hadErr1 then
                 -- Any.value has no presence: an inner message that serializes to nothing is absent
                 let pm1 := pmSet pm 1 (.bytes (host ++ "/" ++ nm).toUTF8.toList)
                 let pm2 := match inner with | .msg [] => pmDel pm1 2 | _ => pmSet pm1 2 inner
-                msgLit cx mi rest n pm2 hadErr1 err pan
-              else msgLit cx mi rest n pm hadErr1 err pan
-        | _ => msgLit cx mi rest n pm true (firstErr err (some .anylit)) pan
+                msgLit cx mi rest n pm2 hadErr1 err
+              else msgLit cx mi rest n pm hadErr1 err
+        | _ => msgLit cx mi rest n pm true (firstErr err (some .anylit))
     | .ext fqn =>
-      match (if cx.linked then cx.sch.findExt fqn else none) with
-      | none => msgLit cx mi rest n pm true (firstErr err (some .msgfield)) pan
+      match resolveLiteralExt cx mi fqn with
+      | .error e => msgLit cx mi rest n pm true (firstErr err (some e))
+      | .ok f =>
+        let err := firstErr err (checkFieldUsage cx.target f)
+        if !sep && !f.kind.isMessage then
+          msgLit cx mi rest n pm true (firstErr err (some .colon))
+        else
+          let r := match val with
+            | .arr vs => setOptionFieldCore cx mi pm f true default (setItems cx mi pm f vs true)
+            | v => setOptionFieldCore cx mi pm f false (fieldValue cx f v true) default
+          msgLit cx mi rest n r.pm hadErr (firstErr err r.err)
+    | .plain nm =>
+      match lookupLiteralField cx.sch mi nm with
+      | none => msgLit cx mi rest n pm true (firstErr err (some .msgfield))
       | some f =>
         let err := firstErr err (checkFieldUsage cx.target f)
         if !sep && !f.kind.isMessage then
-          msgLit cx mi rest n pm true (firstErr err (some .colon)) pan
+          msgLit cx mi rest n pm true (firstErr err (some .colon))
         else
           let r := match val with
-            | .arr vs => setOptionFieldCore cx mi pm f true false default (setItems cx mi pm f vs true)
-            | v => setOptionFieldCore cx mi pm f false v.isMsg (fieldValue cx f v true) default
-          msgLit cx mi rest n r.pm hadErr (firstErr err r.err) (firstErr pan r.pan)
-    | .plain nm =>
-      match lookupLiteralField cx.sch mi nm with
-      | .notFound => msgLit cx mi rest n pm true (firstErr err (some .msgfield)) pan
-      | .nilDeref => msgLit cx mi rest n pm true (firstErr err (some .panicNil)) (firstErr pan (some .panicNil))
-      | .found f =>
-        let err := firstErr err (checkFieldUsage cx.target f)
-        if !sep && !f.kind.isMessage then
-          msgLit cx mi rest n pm true (firstErr err (some .colon)) pan
-        else
-          let r := match val with
-            | .arr vs => setOptionFieldCore cx mi pm f true false default (setItems cx mi pm f vs true)
-            | v => setOptionFieldCore cx mi pm f false v.isMsg (fieldValue cx f v true) default
-          msgLit cx mi rest n r.pm hadErr (firstErr err r.err) (firstErr pan r.pan)
+            | .arr vs => setOptionFieldCore cx mi pm f true default (setItems cx mi pm f vs true)
+            | v => setOptionFieldCore cx mi pm f false (fieldValue cx f v true) default
+          msgLit cx mi rest n r.pm hadErr (firstErr err r.err)
 
 /-- the array loop of setOptionField -/
 def setItems (cx : Cx) (mi : Nat) (pm : PM) (f : FieldS) (vs : AVs) (inside : Bool) : SR :=
   match vs with
-  | .nil => ⟨pm, true, none, none⟩
+  | .nil => ⟨pm, true, none⟩
   | .cons item rest =>
     let r := fieldValue cx f item inside
     match r.val with
-    | none => ⟨pm, false, r.err, r.pan⟩
+    | none => ⟨pm, false, r.err⟩
     | some pv =>
       let pm := if f.isMap then setMapEntry cx.sch pm f pv else appendList pm f pv
       let r2 := setItems cx mi pm f rest inside
-      ⟨r2.pm, r2.ok, firstErr r.err r2.err, firstErr r.pan r2.pan⟩
+      ⟨r2.pm, r2.ok, firstErr r.err r2.err⟩
 
 end
 
 /-- setOptionField on message `pm` of type `mi` -/
 def setOptionField (cx : Cx) (mi : Nat) (pm : PM) (f : FieldS) (v : AV) (inside : Bool) : SR :=
   match v with
-  | .arr vs => setOptionFieldCore cx mi pm f true false default (setItems cx mi pm f vs inside)
-  | v => setOptionFieldCore cx mi pm f false v.isMsg (fieldValue cx f v inside) default
+  | .arr vs => setOptionFieldCore cx mi pm f true default (setItems cx mi pm f vs inside)
+  | v => setOptionFieldCore cx mi pm f false (fieldValue cx f v inside) default
 
 /-! ## interpretField: the name-path walk -/
 
@@ -600,29 +585,29 @@ def resolvePart (cx : Cx) (mi : Nat) (p : NamePart) : Except Err FieldS :=
 
 def interpField (cx : Cx) (mi : Nat) (pm : PM) (parts : List NamePart) (v : AV) : SR :=
   match parts with
-  | [] => ⟨pm, false, some .nofield, none⟩
+  | [] => ⟨pm, false, some .nofield⟩
   | p :: rest =>
     match resolvePart cx mi p with
-    | .error e => ⟨pm, false, some e, none⟩
+    | .error e => ⟨pm, false, some e⟩
     | .ok f =>
       let uerr := checkFieldUsage cx.target f
       match rest with
       | [] =>
         let r := setOptionField cx mi pm f v false
-        ⟨r.pm, r.ok, firstErr uerr r.err, r.pan⟩
+        ⟨r.pm, r.ok, firstErr uerr r.err⟩
       | _ :: _ =>
-        if !f.kind.isMessage then ⟨pm, false, firstErr uerr (some .notmsg), none⟩
-        else if f.card == .rep then ⟨pm, false, firstErr uerr (some .reppath), none⟩
+        if !f.kind.isMessage then ⟨pm, false, firstErr uerr (some .notmsg)⟩
+        else if f.card == .rep then ⟨pm, false, firstErr uerr (some .reppath)⟩
         else
           match pmGet pm f.num with
           | some (.msg sub) =>
             let r := interpField cx f.kind.msgIdx sub rest v
-            ⟨pmSet pm f.num (.msg r.pm), r.ok, firstErr uerr r.err, r.pan⟩
+            ⟨pmSet pm f.num (.msg r.pm), r.ok, firstErr uerr r.err⟩
           | _ =>
-            if oneofConflict cx.sch mi pm f then ⟨pm, false, firstErr uerr (some .oneof), none⟩
+            if oneofConflict cx.sch mi pm f then ⟨pm, false, firstErr uerr (some .oneof)⟩
             else
               let r := interpField cx f.kind.msgIdx [] rest v
-              ⟨pmSet pm f.num (.msg r.pm), r.ok, firstErr uerr r.err, r.pan⟩
+              ⟨pmSet pm f.num (.msg r.pm), r.ok, firstErr uerr r.err⟩
 
 /-! ## feature validation (validateRecursive, the part that can fail) -/
 
@@ -668,17 +653,19 @@ structure PhaseR where
   remain : List (Nat × Stmt)
   fatal : Option Err
 
+/-- the loop's skip of the field pseudo-options: a one-part name `default` / `json_name`
+    (3b5d7843; before, any name that merely started with one of them was skipped) -/
 def isPseudo (isField : Bool) (st : Stmt) : Bool :=
   match st.parts with
-  | p :: _ => isField && !p.isExt && (p.name == "default" || p.name == "json_name")
-  | [] => false
+  | [p] => isField && !p.isExt && (p.name == "default" || p.name == "json_name")
+  | _ => false
 
 def firstIsExt (st : Stmt) : Bool := match st.parts with | p :: _ => p.isExt | [] => false
 def firstName (st : Stmt) : String := match st.parts with | p :: _ => p.name | [] => ""
 
 /-- the loop over the uninterpreted options: (working message, remaining statements, error returned).
     Strict: the first error is returned. Lenient: an error puts the statement into `remain`
-    (the message keeps whatever the failed statement did to it); only a panic ends the loop. -/
+    (the message keeps whatever the failed statement did to it). -/
 def optLoop (cx : Cx) (lenient isField custom : Bool) (mi : Nat) :
     List (Nat × Stmt) → PM → List (Nat × Stmt) → PM × List (Nat × Stmt) × Option Err
   | [], msg, remain => (msg, remain, none)
@@ -692,20 +679,13 @@ def optLoop (cx : Cx) (lenient isField custom : Bool) (mi : Nat) :
       let r := interpField cx mi msg st.parts st.val
       let e := firstErr uerr r.err
       if lenient then
-        match r.pan with
-        | some p => (r.pm, remain, some p)
-        | none =>
-          match e with
-          | some _ => optLoop cx lenient isField custom mi rest r.pm (remain ++ [(i, st)])
-          | none => optLoop cx lenient isField custom mi rest r.pm remain
+        match e with
+        | some _ => optLoop cx lenient isField custom mi rest r.pm (remain ++ [(i, st)])
+        | none => optLoop cx lenient isField custom mi rest r.pm remain
       else
         match e with
         | some er => (r.pm, remain, some er)
-        | none =>
-          -- (a panic always comes with an error; this branch only spares the proofs an invariant)
-          match r.pan with
-          | some p => (r.pm, remain, some p)
-          | none => optLoop cx lenient isField custom mi rest r.pm remain
+        | none => optLoop cx lenient isField custom mi rest r.pm remain
 
 def interpOptions (s : Schema) (m : Mode) (target edition : Nat) (isField custom : Bool) (mi : Nat)
     (opts : PM) (uninterpreted : List (Nat × Stmt)) : PhaseR :=
@@ -819,45 +799,51 @@ structure PseudoR where
   /-- first error (strict mode returns it) -/
   err : Option Err
 
-/-- interpretFieldPseudoOptions as it runs with lenience enabled (errors are recorded and the code
-    continues as written); the strict result is this run cut at `err`. -/
-def pseudoOptions (s : Schema) (linked : Bool) (fc0 : FieldCtx) (un : List (Nat × Stmt)) : PseudoR :=
-  -- before linking, a field with a named type has no `type` yet: GetType() answers TYPE_DOUBLE
-  let fc : FieldCtx := if linked then fc0 else
+/-- the json_name half of interpretFieldPseudoOptions: (list afterwards, json_name, first error,
+    whether the function returns here). A duplicate makes FindOption report an error and answer -1. -/
+def jsonStep (fc : FieldCtx) (un : List (Nat × Stmt)) : List (Nat × Stmt) × Option (List UInt8) × Option Err × Bool :=
+  match findOption un "json_name" with
+  | .error _ => (un, none, some .pseudodup, false)
+  | .ok none => (un, none, none, false)
+  | .ok (some i) =>
+    match (un.getD i default).2.val with
+    | .str b =>
+      if fc.isExtension && !b.isEmpty && b != (jsonName fc.name).toUTF8.toList then (un, none, some .jsonext, true)
+      else if b.head? == some 91 && b.getLast? == some 93 then (removeInPlaceLeak un i, none, some .jsonbrackets, true)
+      else (removeAt un i, some b, none, false)
+    | _ => (un, none, some .jsontype, true)
+
+/-- the default half (processDefaultOption): (list afterwards, default_value, first error) -/
+def defaultStep (s : Schema) (linked : Bool) (fc : FieldCtx) (un1 : List (Nat × Stmt)) :
+    List (Nat × Stmt) × Option (List UInt8) × Option Err :=
+  match findOption un1 "default" with
+  | .error _ => (un1, none, some .pseudodup)
+  | .ok none => (un1, none, none)
+  | .ok (some i) =>
+    if fc.repeated then (un1, none, some .defrepeated)
+    else if fc.kind.isMessage then (un1, none, some .defmsg)
+    else match defaultText s fc.kind (un1.getD i default).2.val linked with
+      | .error e => (un1, none, some e)
+      | .ok txt => (removeAt un1 i, some txt, none)
+
+/-- before linking, a field with a named type has no `type` yet: GetType() answers TYPE_DOUBLE -/
+def unlinkedFieldCtx (linked : Bool) (fc0 : FieldCtx) : FieldCtx :=
+  if linked then fc0 else
     match fc0.kind with
     | .enum _ => { fc0 with kind := .dbl }
     | .msg _ => { fc0 with kind := .dbl }
     | .group _ => { fc0 with kind := .dbl }
     | _ => fc0
-  -- json_name: a duplicate makes FindOption report an error and answer -1
-  let (ji, e0) : Option Nat × Option Err :=
-    match findOption un "json_name" with
-    | .error _ => (none, some .pseudodup)
-    | .ok r => (r, none)
-  -- (un after json_name, json value, error, early return)
-  let j : List (Nat × Stmt) × Option (List UInt8) × Option Err × Bool :=
-    match ji with
-    | none => (un, none, none, false)
-    | some i =>
-      match (un.getD i default).2.val with
-      | .str b =>
-        if fc.isExtension && !b.isEmpty && b != (jsonName fc.name).toUTF8.toList then (un, none, some .jsonext, true)
-        else if b.head? == some 91 && b.getLast? == some 93 then (removeInPlaceLeak un i, none, some .jsonbrackets, true)
-        else (removeAt un i, some b, none, false)
-      | _ => (un, none, some .jsontype, true)
-  let (un1, json, e1, ret) := j
-  let err := firstErr e0 e1
-  if ret then ⟨un1, none, json, err⟩
+
+/-- interpretFieldPseudoOptions as it runs with lenience enabled (errors are recorded and the code
+    continues as written); the strict result is this run cut at `err`. -/
+def pseudoOptions (s : Schema) (linked : Bool) (fc0 : FieldCtx) (un : List (Nat × Stmt)) : PseudoR :=
+  let fc := unlinkedFieldCtx linked fc0
+  let j := jsonStep fc un
+  if j.2.2.2 then ⟨j.1, none, j.2.1, j.2.2.1⟩
   else
-    match findOption un1 "default" with
-    | .error _ => ⟨un1, none, json, firstErr err (some .pseudodup)⟩
-    | .ok none => ⟨un1, none, json, err⟩
-    | .ok (some i) =>
-      if fc.repeated then ⟨un1, none, json, firstErr err (some .defrepeated)⟩
-      else if fc.kind.isMessage then ⟨un1, none, json, firstErr err (some .defmsg)⟩
-      else match defaultText s fc.kind (un1.getD i default).2.val linked with
-        | .error e => ⟨un1, none, json, firstErr err (some e)⟩
-        | .ok txt => ⟨removeAt un1 i, some txt, json, err⟩
+    let d := defaultStep s linked fc j.1
+    ⟨d.1, d.2.1, j.2.1, firstErr j.2.2.1 d.2.2⟩
 
 /-! ## Whole element, two phases -/
 
